@@ -8,9 +8,10 @@ carries its scale, every integer operation the C type it is computed in.  What t
 fixed in CLite.v.  The hand-written models are proved equal to these terms in coq/Tr*.v, for all
 inputs, so a change of one of these functions breaks a proof obligation.
 
-A function that uses a construct outside the subset (switch, goto, struct copies, calls to functions
-that are neither translated nor modelled library functions, ...) makes the translator fail loudly
-(exit 2) naming the construct: the tie is then no longer checked, which the check reports.
+A function that uses a construct outside the subset (switch, goto, struct copies, ...) or that no longer
+exists is emitted as a STUB (an empty function) with the reason in a comment and on stdout: the
+theorems about that function then no longer check -- which the property that owns them reports -- while
+the theorems about the other functions are not disturbed.
 """
 import sys, os, json, subprocess, re
 
@@ -603,6 +604,7 @@ class Translator:
         self.types.loader = self.load_struct
         self.types.typedefs = self.typedef_of
         self.tdcache = {}
+        self.stubs = {}          # Coq name -> why the function could not be translated
         self.globals = []        # (name, coq block text)
         self.gindex = {}
         self.gvars = {}          # file-level cache: name -> VarDecl node
@@ -761,11 +763,15 @@ class Translator:
                     if d.get('kind') == 'FunctionDecl' and d.get('name') == fn and any(c.get('kind') == 'CompoundStmt' for c in d.get('inner', [])):
                         decl = d
                 if decl is None:
-                    die('function %s not found in %s' % (fn, f))
+                    # the function is gone: a stub, so that only the theorems about IT break (not every property that imports GenCFuncs)
+                    self.stubs[coq] = 'function %s not found in %s' % (fn, f)
+                    bodies[coq] = (0, 0, 'SSkip')
+                    continue
                 try:
                     bodies[coq] = Fn(self, decl).translate()
                 except Unsupported as e:
-                    die('%s:%s uses a construct outside the translated subset: %s' % (f, fn, e))
+                    self.stubs[coq] = '%s:%s uses a construct outside the translated subset: %s' % (f, fn, e)
+                    bodies[coq] = (0, 0, 'SSkip')
         w = out.append
         w('(* GENERATED by tools/c2clite.py from %s -- do not edit.  One CLite term per C function. *)' % ', '.join(sorted(by_file)))
         w('From Coq Require Import List ZArith.')
@@ -788,7 +794,7 @@ class Translator:
         w('')
         for f, cn, fn in FUNCS:
             np, nl, s = bodies[fn]
-            w('(* %s: %s *)' % (f, cn))
+            w('(* %s: %s%s *)' % (f, cn, '  -- NOT TRANSLATED (stub): ' + self.stubs[fn].replace('*)', '* )') if fn in self.stubs else ''))
             w('Definition cf_%s : cfunc := mkfn %d %d' % (fn, np, nl))
             w('  %s.' % s)
         w('')
@@ -800,6 +806,8 @@ class Translator:
             with open(path, 'w') as f:
                 f.write(text)
         print('c2clite.py: %d functions, %d global blocks -> %s%s' % (len(FUNCS), len(self.globals), path, '' if old != text else ' (unchanged)'))
+        for c, why in self.stubs.items():
+            print('c2clite.py: STUB %s: %s' % (c, why))
 
 
 if __name__ == '__main__':
